@@ -848,9 +848,10 @@ theorem Frustum_aspectExc_error (tmax n f l r t b : α) (k : Exc) :
   exc_err_tac [Gen.C07.Frustum.aspectExc]
   tauto
 
-/-- tightness: `aspectExc` throws only when `top = bottom ≠`… precisely: `top − bottom = 0 ≠ right − left`, or the exact
-aspect ratio exceeds `tmax` in magnitude.  NOTE (observation, reported): for `right = left ∧ top = bottom` the ratio is `0 / 0`,
-"undefined", and `aspectExc` does NOT throw although it is documented to "throw an exception if the aspect ratio is undefined". -/
+/-- tightness: `aspectExc` throws only when `|top − bottom| < 1` and either `top − bottom = 0 ≠ right − left` or the EXACT
+aspect ratio exceeds `tmax` in magnitude.  OBSERVATION (reported, see `Frustum_aspectExc_zero_over_zero`): for `right = left ∧
+top = bottom` the ratio is `0 / 0`, "undefined", and `aspectExc` does NOT throw although it is documented to "throw an exception if
+the aspect ratio is undefined" (the guard is the strict `>`; the unchecked form has no failure report, so the pair still agrees). -/
 theorem Frustum_aspectExc_tight (tmax n f l r t b : α) (k : Exc) (h : Gen.C07.Frustum.aspectExc tmax n f l r t b = .error k) :
     |t - b| < 1 ∧ ((t - b = 0 ∧ r - l ≠ 0) ∨ (t - b ≠ 0 ∧ tmax < |Gen.C07.Frustum.aspect n f l r t b|)) := by
   have := ((Frustum_aspectExc_error tmax n f l r t b k).mp h).2
